@@ -650,7 +650,8 @@ class RotationImplemented(BaseAlignmentModel):
             Result of alignment.
         """
         iopt, shift, _, corr = super().align(img, max_shifts, quaternion, pos, backend)
-        quat = self.quaternions[iopt % self._n_rotations]
+        # candidates are ordered as (rot0, temp0), (rot0, temp1), ...
+        quat = self.quaternions[iopt // self._n_templates]
         return AlignmentResult(label=iopt, shift=shift, quat=quat, score=corr)
 
     def fit(
